@@ -102,10 +102,13 @@ func (e *Engine) VerifyFunction(fn *ssa.Function, fc *FuncContract) (vc *VC) {
 		return vc
 	}
 	// postconditions at every return
-	ensures := fc.Of("ensures")
+	ensures := append(fc.Of("ensures"), fc.Of("proves")...)
 	onret := fc.Of("onreturn")
 	sig := fn.Signature
 	var exitPCs []T
+	if fc.Has("mergeexits") {
+		fr.mergeExits()
+	}
 	for _, ex := range fr.exits {
 		exitPCs = append(exitPCs, ex.pc)
 		env := fr.contractEnv(ex.st, ex.pc)
@@ -338,4 +341,40 @@ func (e *Engine) VerifyLemma(ld *LemmaDef) *VC {
 	}
 	vc.oblige("lemma", vc.RootKey, ld.Tags, True, g, token.NoPos, "lemma "+ld.Name)
 	return vc
+}
+
+// mergeExits joins all returns into one exit (postconditions are then checked once on the merged state).
+func (fr *Frame) mergeExits() {
+	vc := fr.vc
+	if len(fr.exits) <= 1 {
+		return
+	}
+	var conds []T
+	var sts []*State
+	for _, ex := range fr.exits {
+		conds = append(conds, ex.pc)
+		sts = append(sts, ex.st)
+	}
+	merged := vc.mergeStates(conds, sts)
+	pc := vc.define("pc_exit", SortBool, Or(conds...))
+	if vc.pcSplits == nil {
+		vc.pcSplits = map[string][]T{}
+	}
+	vc.pcSplits[pc] = conds
+	n := len(fr.exits[0].rets)
+	rets := make([]Val, n)
+	for i := 0; i < n; i++ {
+		t := fr.exits[0].rets[i].Typ
+		ls := vc.E.leavesOf(t)
+		out := make([]T, len(ls))
+		for li := range ls {
+			tm := fr.exits[len(fr.exits)-1].rets[i].Ts[li]
+			for k := len(fr.exits) - 2; k >= 0; k-- {
+				tm = Ite(fr.exits[k].pc, fr.exits[k].rets[i].Ts[li], tm)
+			}
+			out[li] = vc.define("ret", ls[li].Sort, tm)
+		}
+		rets[i] = Val{Typ: t, Ts: out}
+	}
+	fr.exits = []exitPoint{{pc: pc, st: merged, rets: rets, pos: fr.exits[0].pos}}
 }
